@@ -211,6 +211,7 @@ with enc_elem (e : elem) (s : st) {struct e} : st * option bytes :=
       end
   | EObj m => enc_obj m s
   | EArr a => enc_arr a s
+  | EFail msg => (s, Some msg)
   end.
 
 Definition enc_flds (fs : list fld) (s : st) : st := fold_left (fun s f => enc_fld f s) fs s.
